@@ -295,6 +295,11 @@ class Report:
         self.known_hits = {}       # finding id -> count
         self.kf = [k for k in load_known_findings().get("known", []) if k.get("property") == prop]
         self.n = 0
+        d = os.path.join(REPLAYS, prop)
+        if os.path.isdir(d):     # replay files of an earlier run with the same tier/seed are stale
+            for f in os.listdir(d):
+                if f.startswith(f"{tier}-{seed}-"):
+                    os.remove(os.path.join(d, f))
 
     def _match_known(self, scenario):
         for k in self.kf:
